@@ -98,6 +98,33 @@ def fmt2(ctx: Ctx, which: str = "C18") -> None:
                                construct=f"{q}: visibility test")
         if not found:
             ctx.R.fail("FMT-2", mod, fn, f"{q}: no visibility test on {hide}: hidden items are always shown", construct=f"{q}: visibility test")
+    # no other place may decide visibility from `.hide` alone: every test that reads a `.hide` attribute
+    # in the formatting / summary code must have the form `<x>.hide and not <show_hidden_frames>`
+    known = {id(s) for q, hide, show, act in sites for s in ast.walk(mod.fn(q)) if isinstance(s, ast.If) and hide in norm(s.test)}
+    for n in ast.walk(mod.tree):
+        tests = []
+        if isinstance(n, (ast.If, ast.While, ast.IfExp)) and id(n) not in known:
+            tests = [n.test]
+        elif isinstance(n, ast.comprehension):
+            tests = list(n.ifs)
+        for t in tests:
+            hides = [x for x in ast.walk(t) if isinstance(x, ast.Attribute) and x.attr == "hide" and isinstance(x.ctx, ast.Load)]
+            for h in hides:
+                hv = norm(h)
+                shows = [norm(x) for x in ast.walk(t) if isinstance(x, (ast.Name, ast.Attribute)) and norm(x).endswith("show_hidden_frames")]
+                ok = False
+                if shows:
+                    try:
+                        ok, _ = equivalent(t, lambda e: e[hv] and not e[shows[0]], [hv, shows[0]])
+                        if not ok:  # the same predicate used as a keep-filter
+                            ok, _ = equivalent(t, lambda e: not (e[hv] and not e[shows[0]]), [hv, shows[0]])
+                    except AnalysisError:
+                        ok = False
+                if ok:
+                    ctx.R.ok("FMT-2", f"{mod.qualname_of(n)}: additional visibility test {norm(t)[:60]}")
+                else:
+                    ctx.R.fail("FMT-2", mod, n if not isinstance(n, ast.comprehension) else t, f"{mod.qualname_of(t) or mod.qualname_of(n)}: an item is skipped because of `{hv}` without consulting show_hidden_frames: "
+                               "with show_hidden_frames=True the hidden item (and its subtree) is still omitted", construct=f"visibility decided by {norm(t)[:80]}")
 
 
 def fmt3(ctx: Ctx) -> None:
@@ -332,11 +359,20 @@ def fmt8(ctx: Ctx) -> None:
     else:
         ctx.R.fail("FMT-8", mod, fn, "format_flat must be: header; StackSummary.format() of as_stdlib_summary(show_contexts=show_contexts) iff there are frames; the leaf line; the error lines", construct="format_flat body")
     sm = mod.fn("Stack.as_stdlib_summary")
-    r = [s for s in sm.body if isinstance(s, ast.Return)]
-    if r and norm(r[0].value).startswith("traceback.StackSummary.from_list(self._frame_summaries("):
-        ctx.R.ok("FMT-8", "as_stdlib_summary builds a traceback.StackSummary from the frame summaries")
+    r = [s for s in ast.walk(sm) if isinstance(s, ast.Return)]
+    if r and all(x.value is not None and norm(x.value).startswith("traceback.StackSummary.from_list(self._frame_summaries(") for x in r):
+        ctx.R.ok("FMT-8", "as_stdlib_summary builds a traceback.StackSummary from the frame summaries (on every return)")
     else:
-        ctx.R.fail("FMT-8", mod, sm, "as_stdlib_summary must return traceback.StackSummary.from_list(self._frame_summaries(...))")
+        ctx.R.fail("FMT-8", mod, sm, "every return of as_stdlib_summary must be traceback.StackSummary.from_list(self._frame_summaries(...)): one entry per visible Frame of this Stack", construct="as_stdlib_summary returns")
+    # who may produce summary entries: only the two FrameSummary(...) constructions; re-extracting from live
+    # frames (StackSummary.extract / extract_stack / walk_stack ...) obeys sys.tracebacklimit and its own limit/lookup rules
+    for n in ast.walk(mod.tree):
+        if isinstance(n, ast.Call):
+            f = norm(n.func)
+            if f.startswith("traceback.") and f.split(".")[-1] in ("extract", "extract_stack", "extract_tb", "walk_stack", "walk_tb", "format_stack", "print_stack", "format_list") \
+                    and mod.qualname_of(n) != "Stack._format_error":
+                ctx.R.fail("FMT-8", mod, n, f"{mod.qualname_of(n)}: summary entries are re-extracted from live frames with {f}: that API truncates at sys.tracebacklimit / its own limit and "
+                           "ignores Frame.lineno and the hidden flags, so frames of the Stack can be missing from the summary", construct=f"{f} in {mod.qualname_of(n)}")
 
 
 OPTS = {"show_contexts", "show_hidden_frames", "capture_locals"}
